@@ -249,36 +249,52 @@ def _positioned(ctx, prog):
                      'expected exactly one inner forward_with_joint_poses call', found=[v[2] for v in vv]):
         return
     fk = strip(b.call_term(vv[0][1], (vv[0][0], None)))
-    # closure building PositionedJoint{joint_body, transform: global_transforms[i]} from enumerate()
+    # closures building PositionedJoint{joint_body, transform}: the one mapped over joint_meshes.iter().enumerate() pairs mesh i
+    # with pose i; the tool is placed either in the function itself (if let Some(tool)) or by Option::map over body.tool
     cl = [c for c in util.closure_bodies(prog, b.path) if any(st['rv']['k'] == 'agg' and 'PositionedJoint' in str(st['rv']['kind']) for _, _, st in c.stmts())]
+    users = {}
+    for bi, t in b.calls():
+        for a in t['args']:
+            cb, caps = util.closure_of_term(prog, b.op_term(a, (bi, None)))
+            if cb is not None:
+                users[cb.path] = (bi, t)
     ok = False
+    chain_ok = False
+    tool_ok = False
     detail = ''
-    if len(cl) == 1:
-        c = cl[0]
+    for c in cl:
+        use = users.get(c.path)
+        if use is None:
+            continue
+        bi, ut = use
+        un = cname(callee_name(ut))
+        recv = b.op_term(ut['args'][0], (bi, None))
         for i, j, st in c.stmts():
-            if st['rv']['k'] == 'agg' and 'PositionedJoint' in str(st['rv']['kind']):
-                t = c.rv_term(st['rv'], (i, j))
-                jb, tr = strip(t[2]), strip(t[3])
+            if not (st['rv']['k'] == 'agg' and 'PositionedJoint' in str(st['rv']['kind'])):
+                continue
+            t = c.rv_term(st['rv'], (i, j))
+            jb, tr = strip(t[2]), strip(t[3])
+            if un == 'Option::map':
+                src = strip(recv)
+                while isinstance(src, tuple) and src[0] == 'call' and cname(src[1]) in ('Option::as_ref',):
+                    src = strip(src[2])
+                from_tool = isinstance(src, tuple) and src[0] == 'fld' and src[2] == 'tool'
+                tool_ok = from_tool and util.is_param(jb, 2) and isinstance(tr, tuple) and tr[0] == 'idx' and util.const_val(tr[2]) == 5
+            elif un.endswith('::map'):
                 # closure param 2 is the tuple (i, joint_body)
                 ok = (isinstance(jb, tuple) and jb[0] == 'fld' and util.is_param(jb[1], 2) and jb[2] == '1'
                       and isinstance(tr, tuple) and tr[0] == 'idx' and isinstance(strip(tr[2]), tuple) and strip(tr[2])[0] == 'fld'
                       and util.is_param(strip(tr[2])[1], 2) and strip(tr[2])[2] == '0')
                 detail = show(t, maxdepth=5)
-    # the iterator handed to map is joint_meshes.iter().enumerate()
-    chain_ok = False
-    for bi, t in b.calls():
-        if cname(callee_name(t)).endswith('::map') and 'Enumerate' in str(t['callee'].get('args', '')) + b.local_ty(t['args'][0]['place']['local'] if t['args'][0]['k'] != 'const' else 0):
-            base, ad = util.iter_chain(b.op_term(t['args'][0], (bi, None)))
-            base = strip(base)
-            chain_ok = ad == ['iter', 'enumerate'] and isinstance(base, tuple) and base[0] == 'fld' and base[2] == 'joint_meshes'
+                base, ad = util.iter_chain(recv)
+                base = strip(base)
+                chain_ok = ad == ['iter', 'enumerate'] and isinstance(base, tuple) and base[0] == 'fld' and base[2] == 'joint_meshes'
     ctx.check(ok and chain_ok, 'R11.4', 'positioned_robot/links', b.where(0), b.path,
               'link meshes are not paired with the link pose of the same index (pair ok=%s, iteration over joint_meshes.iter().enumerate()=%s)' % (ok, chain_ok), found=detail, detail=detail)
     # tool transform = global_transforms[J6]
-    tool_ok = False
     for i, j, st in b.stmts():
         if st['rv']['k'] == 'agg' and 'PositionedJoint' in str(st['rv']['kind']):
             t = b.rv_term(st['rv'], (i, j))
             tr = strip(t[3])
             tool_ok = isinstance(tr, tuple) and tr[0] == 'idx' and util.const_val(tr[2]) == 5
-            jb = strip(t[2])
     ctx.check(tool_ok, 'R11.4', 'positioned_robot/tool', b.where(0), b.path, 'tool is not placed at link pose J6')
